@@ -39,7 +39,7 @@ def _have(*audits: str) -> bool:
 # ---------------------------------------------------------------- loop / policy properties
 _LOOP = {
     "C01": (["Redress.Props.C01"], ["Redress/Audit/C01.lean"]),
-    "C02": (["Redress.Props.C02"], ["Redress/Audit/C02.lean"]),
+    "C02": (["Redress.Props.C02", "Redress.Props.C02Tail"], ["Redress/Audit/C02.lean", "Redress/Audit/C02Tail.lean"]),
     "C03": (["Redress.Props.C03"], ["Redress/Audit/C03.lean"]),
     "C04": (["Redress.Props.C04", "Redress.Props.C04NR", "Redress.Props.C04Stop"],
             ["Redress/Audit/C04.lean", "Redress/Audit/C04NR.lean", "Redress/Audit/C04Stop.lean"]),
